@@ -77,6 +77,17 @@ CLAIMS = {
    text="FrameWriter.tla is a builder machine of write::FrameTable (add_cie de-duplication, lazy CIE emission, entry layout, augmentation and pointer encodings, advance_loc form by factored delta, exact factoring or error, decreasing offsets, padding) with a reference evaluator for the meaning of the supplied instructions; every explored builder script (advance_loc width boundaries x code alignment, every instruction variant x operand boundaries x data alignment, <= 2-3 CIEs x <= 2-3 FDEs) is executed on gimli, written as .debug_frame and .eh_frame, read back and compared: CIE parameters, FDE range/LSDA/personality, CIE binding, one CIE per distinct CIE, unwind state at every probe offset as the function offset -> (CFA, rules, args size), specific success/failure; observed entry lengths are validated against the padding rule by FrameWriterTrace.",
    note="Exhaustive over the stated boundary alphabets; operands < 2^31 in magnitude; Address::Symbol not covered; only the padding rule has a trace binding.",
    technique="TLA+ builder machine FrameWriter over CfiCodec with reference row evaluator; TLC-enumerated scripts replayed on writer+reader + TLC trace validation of padding"),
+
+ "C11": dict(
+   cat="model_checking", ref="DESIGN.md §5 C11",
+   text="UnitWriter.tla is a builder machine of write::Unit / UnitTable / Dwarf (add, reserve, add_reserved with lazy placeholder materialisation, set/replace, delete, set_sibling, delete_child, string de-duplication) with Form/Size/Emit/Meaning tables for every AttributeValue kind and Unit::write as coded (base-type reordering, abbreviation codes, two-pass layout, sibling offsets, in-unit patches, cross-unit fix-ups); TLC checks Size = Len(Emit) and layout consistency on every script and predicts the read-back forest and the exact .debug_info / .debug_str bytes. Every script of the bounded model (127 probe values x DWARF 2-5 x both formats x address size 1/2/4/8 x byte order on a skeleton whose forward, backward and cross-unit references jump over the probe; interleavings of 3-4 structure calls + 1-2 modifiers with references to added, reserved-only and deleted ids; 1-2 units) is replayed through Dwarf::write and incrementally per unit, read back with read::Dwarf, and must give exactly the predicted forest (references resolved to entry identities) and bytes, or the predicted refusal.",
+   note="Bounded exhaustive; expressions are raw bytecode or five layout-dependent operations (C15 covers the expression builder); FileIndex(Some), line programs and symbolic references are not generated; no trace (V) part: the replay compares complete forests and bytes.",
+   technique="TLA+ builder machine UnitWriter with two-pass layout (Size = Len(Emit) checked by TLC); TLC-generated scripts replayed on writer+reader, forest and bytes compared"),
+ "C19": dict(
+   cat="model_checking", ref="DESIGN.md §5 C19",
+   text="Filter.tla defines the required closure declaratively (parent, reference and member-of-retained-non-namespace edges; tag table from has_die_back_edge) and models the worklist of get_reachable step by step with the per-unit reservation split; inside TLC, for every graph and every Required subset: worklist result = closure, Required retained, complete, minimal, no dangling reference, bounded loop. Every input graph of the bounded model (ordered forests <= 4/5 entries over 1-2 units x tag classes x <= 2-3 reference edges of 24 kinds incl. cycles, invalid offsets, unit roots as targets and holders, expression and location-list references) x every Required subset is built with gimli's writer, filtered and converted by the real API (three conversion flows, split units through a skeleton), written and read back: retained set = closure (larger closed outputs are drift), write succeeds, no dangling reference, attributes equal to the unfiltered conversion. Random forests of 50-500 entries are validated by FilterTrace.",
+   note="Exhaustive within the bounds for the graph structure; concrete tags and reference kinds are rotated, not multiplied; split-unit filters only in the DWARF <= 4 GNU style (the writer cannot produce v5 skeleton headers).",
+   technique="TLA+ spec Filter (declarative closure = worklist-as-coded proved by TLC); TLC-generated graphs replayed through writer, filter, converter, reader + TLC trace validation"),
 }
 NOT_YET = "check not built yet in this session (see DESIGN.md §9 build order); not claimed"
 def main():
